@@ -5,6 +5,7 @@ package service
 
 import (
 	"net"
+	"sync"
 	"time"
 )
 
@@ -154,12 +155,19 @@ func VH_C18_streamserve_isolation() {
 	}
 	panicOn := verifChoice("panic-on", 4)
 	handled := 0
+	var hmu sync.Mutex
+	handledBy := map[transportStreamConn]int{}
 	release := make(chan struct{})
 	handle := func(ctx contextContext, c transportStreamConn) {
+		hmu.Lock()
+		handledBy[c]++
+		hmu.Unlock()
 		if c == transportStreamConn(conns[2]) {
 			<-release // a slow handler: StreamServe must wait for it
 		}
+		hmu.Lock()
 		handled++
+		hmu.Unlock()
 		if panicOn < 3 && c == transportStreamConn(conns[panicOn]) {
 			panic("handler failure")
 		}
@@ -177,6 +185,9 @@ func VH_C18_streamserve_isolation() {
 	verifAssert("C18.serve.all-accepted-handled", handled == 3)
 	for _, c := range conns {
 		verifAssert("C18.serve.every-conn-closed", c.closed == 1)
+		// each accepted connection is handed to exactly one handler (connections queued behind
+		// each other are not mixed up)
+		verifAssert("C18.serve.every-conn-handled-once|C15.serve.every-conn-handled-once", handledBy[transportStreamConn(c)] == 1)
 	}
 	verifAssert("C18.serve.nothing-left", verifBlockedIn("StreamServe") == 0)
 	verifReach("C18.serve.with-panic", panicOn < 3)
